@@ -3,6 +3,7 @@ package main
 // C16 — observation / stream-value / configuration wire codecs.
 
 import (
+	"encoding/hex"
 	"bytes"
 	"context"
 	"encoding/json"
@@ -564,6 +565,22 @@ func genC16(g *G) {
 		}
 		g.Emit(op, tag)
 	}
+	// a timestamped value whose inner value is absent (only a byzantine sender can build it: the
+	// encoder refuses nil inner values) must be rejected, at depth 1 and 2, alone and inside an observation
+	for _, hx := range []string{"", "0805", "08ffffffffffffffffff01", "08051200", "0805120408021200", "08051206080212020805", "120408021200"} {
+		g.Emit(J{"op": "sv.unbinary", "ty": "2", "value": hx}, "sv-nil-inner")
+	}
+	for _, hx := range []string{"", "0805", "120408021200"} {
+		// LLOObservationProto.streamValues (field 7): map<uint32, LLOStreamValue{type=2, value=hx}>
+		inner, _ := hex.DecodeString(hx)
+		val := append([]byte{0x08, 0x02}, append([]byte{0x12, byte(len(inner))}, inner...)...)
+		if len(inner) == 0 {
+			val = []byte{0x08, 0x02}
+		}
+		entry := append([]byte{0x08, 0x07, 0x12, byte(len(val))}, val...)
+		ob := append([]byte{0x3a, byte(len(entry))}, entry...)
+		g.EmitImpl(J{"op": "obs.decodebytes", "bytes": hexs(ob)}, "obs-nil-inner")
+	}
 	// negative zero decimals (implementation only): sign byte 3, empty magnitude
 	g.EmitImpl(J{"op": "sv.unbinary", "ty": "0", "value": "0000000003"}, "neg-zero")
 	// ---- off-chain config
@@ -753,6 +770,9 @@ func monC16(op J, res any) (viol []Violation, nontrivial bool) {
 			}
 		}
 	case "sv.unbinary":
+		if ok && cdcHasNilInner(r["ok"]) {
+			bad("sv-nil-inner-accepted", "a timestamped value without an inner value decoded (nil values are documented as rejected)")
+		}
 		if orig := op["orig"]; orig != nil {
 			if cdcSVDepth(orig) > 2 {
 				if ok {
@@ -866,4 +886,19 @@ func monC16(op J, res any) (viol []Violation, nontrivial bool) {
 		}
 	}
 	return
+}
+
+// cdcHasNilInner: does a decoded stream value (JSON form) contain a timestamped value whose inner value is nil?
+func cdcHasNilInner(v any) bool {
+	m := jObj(v)
+	if m == nil {
+		return false
+	}
+	if jStr(m["t"]) == "tsv" {
+		if m["v"] == nil {
+			return true
+		}
+		return cdcHasNilInner(m["v"])
+	}
+	return false
 }
